@@ -1319,6 +1319,11 @@ class Compiler:
       if isinstance(ta, BK) and isinstance(tb, BK):
         return self.lift((ta.v and tb.v) if isinstance(op, ast.BitAnd) else (ta.v or tb.v))
       return SE(as_int(BoolOp("and" if isinstance(op, ast.BitAnd) else "or", [ta, tb])))
+    if isinstance(op, ast.Add) and isinstance(a, SE) and isinstance(a.typ, tuple) and a.typ[0] == "listref" and isinstance(b, ST):
+      # lst + [x]: a new list out of the live contents of lst (one C-level call)
+      if len(b.items) != 1:
+        raise TranslationError("list + a list display of %d elements" % len(b.items))
+      return self.op(a.typ[1], "concat_new", [a, b.items[0]], typ=a.typ)
     name = {ast.Add: "add", ast.Sub: "sub"}.get(type(op))
     if name is None:
       raise TranslationError("binary operator %s" % type(op).__name__)
